@@ -681,12 +681,14 @@ Proof.
   rewrite ?mem_rm, cnt_rm; destruct (Nat.eqb x c) eqn:E; cbn [negb andb]; try lia;
   apply Nat.eqb_eq in E; subst; rewrite ?Mf in H; lia.
 Qed.
-Lemma inv3_take t w c rest : nth_error (workers t) w = Some None -> queue t = c :: rest -> Inv3 t ->
-  Inv3 (with_pool t (fdmap t) (pollset t) rest (set_nth w (Some (c, batch K)) (workers t))).
+Lemma inv3_take t w c rest n : nth_error (workers t) w = Some None -> queue t = c :: rest -> Inv3 t ->
+  Inv3 (with_pool t (fdmap t) (pollset t) rest (set_nth w (Some (c, n)) (workers t))).
 Proof.
   intros Hw Hq H A x. unfold held. simp_state. specialize (H A x). unfold held in H. rewrite Hq, cnt_cons in H.
-  pose proof (held_set_nth x _ _ _ (Some (c, batch K)) Hw) as G. rewrite slot_cnt_none, slot_cnt_some in G. lia.
+  pose proof (held_set_nth x _ _ _ (Some (c, n)) Hw) as G. rewrite slot_cnt_none, slot_cnt_some in G. lia.
 Qed.
+Lemma inv3_set_conn t c k : Inv3 t -> Inv3 (set_conn t c k).
+Proof. apply inv3_tables; reflexivity. Qed.
 Lemma inv3_release_queue t w c n : nth_error (workers t) w = Some (Some (c, n)) -> Inv3 t -> Inv3 (enqueue (set_worker t w None) c).
 Proof.
   intros Hw H A x. unfold held. simp_state. specialize (H A x). unfold held in H. rewrite cnt_app, cnt_one.
@@ -728,7 +730,7 @@ Proof.
   all: try (eapply inv3_release_poll; [simp_state; eassumption|]).
   all: try (eapply inv3_release_drop; [simp_state; eassumption|]).
   all: try (eapply inv3_keep; [simp_state; eassumption|]).
-  all: try assumption; try (apply inv3_serve_on; assumption).
+  all: try assumption; try (apply inv3_serve_on; assumption); try (apply inv3_set_conn; assumption).
   all: try (eapply inv3_tables; [..|eassumption]; simp_state; reflexivity).
 Qed.
 
@@ -913,13 +915,15 @@ Qed.
 Definition pool_has_idle_worker (s : st) : Prop := exists w, nth_error (workers s) w = Some None.
 Definition clients_guard : Prop := kind K <> Pool \/ pool_fail_discards (fx K) = true.
 
-Lemma serve_unblocked s w c n : kind K = Pool -> nth_error (workers s) w = Some (Some (c, n)) -> gone (conns s c) = true ->
+Lemma serve_unblocked s w c n : kind K = Pool -> nth_error (workers s) w = Some (Some (c, S n)) -> gone (conns s c) = true ->
   exists s', step (EServe w) s = Some s'.
 Proof.
   intros Kp Hw Hg. unfold Server.step, Server.serve_step. rewrite Kp, Hw.
   destruct (negb (mem c (fdmap s))); [eauto|]. rewrite Hg.
-  destruct (next_input (inb (conns s c))); try destruct (is_close q); try destruct n as [|[|m]]; eauto.
+  destruct (next_input (inb (conns s c))); try destruct (is_close q); try destruct n as [|m]; try destruct (pool_catches_base (fx K)); eauto.
 Qed.
+(* no pool worker thread has died *)
+Definition no_dead_worker (s : st) : Prop := forall w c, nth_error (workers s) w <> Some (Some (c, 0)).
 
 (* while the server runs: when its threads have nothing left to do, no table mentions a client that has left
    (thread pool: provided a worker is idle -- see C16 for what happens otherwise) *)
@@ -927,7 +931,7 @@ Theorem no_residue_running s : reach s -> active s = true -> quiescent s ->
   forall c, gone (conns s c) = true ->
     stg (conns s c) <> Own /\ stg (conns s c) <> Authing
     /\ (clients_guard -> mem c (clients s) = false)
-    /\ (pool_has_idle_worker s \/ queue s = [] ->
+    /\ (no_dead_worker s -> pool_has_idle_worker s \/ queue s = [] ->
         stg (conns s c) <> Pooled /\ mem c (fdmap s) = false /\ mem c (pollset s) = false /\ mem c (queue s) = false /\ cnt c (held s) = 0).
 Proof.
   intros R Ha Q c Hg. pose proof (inv_reach _ R) as I. pose proof I as (I1 & [H2 N2] & I3).
@@ -939,7 +943,7 @@ Proof.
   - intros G. destruct (mem c (clients s)) eqn:M; [exfalso|reflexivity].
     destruct (Hcl eq_refl) as [E|[E|(Kp & _ & D)]]; [apply (Hs Own); auto|apply (Hs Authing); auto|].
     destruct G; congruence.
-  - intros G. specialize (I3 Ha c).
+  - intros ND G. specialize (I3 Ha c).
     assert (Mf : mem c (fdmap s) = false).
     { destruct (mem c (fdmap s)) eqn:M; [exfalso|reflexivity].
       assert (Kp : kind K = Pool).
@@ -948,11 +952,12 @@ Proof.
       destruct (Nat.eq_dec (cnt c (pollset s)) 0) as [Zp|Zp]; [destruct (Nat.eq_dec (cnt c (queue s)) 0) as [Zq|Zq]|].
       - (* in a worker's hands *)
         destruct (held_witness c (workers s)) as (w & n & Hw); [unfold held in I3; lia|].
+        destruct n as [|n]; [exfalso; exact (ND w c Hw)|].
         destruct (serve_unblocked s w c n Kp Hw Hg) as [s' F]. rewrite (Q (EServe w) eq_refl) in F. discriminate.
       - (* in the queue: an idle worker takes the head *)
         destruct G as [[w Hw]|G]; [|rewrite G in Zq; cbn in Zq; lia].
         destruct (queue s) as [|c' rest] eqn:Eq; [cbn in Zq; lia|].
-        assert (F : step (ETake w) s = Some (with_pool s (fdmap s) (pollset s) rest (set_nth w (Some (c', batch K)) (workers s)))).
+        assert (F : step (ETake w) s = Some (with_pool s (fdmap s) (pollset s) rest (set_nth w (Some (c', Nat.max 1 (batch K))) (workers s)))).
         { unfold Server.step, Server.take_step. rewrite Kp, Hw, Eq, Ha. reflexivity. }
         rewrite (Q (ETake w) eq_refl) in F. discriminate.
       - (* in the poll set: end-of-stream makes it readable *)
@@ -1229,6 +1234,321 @@ Proof.
       assert (E' : (own (conns s' c), table (conns s' c), out (conns s' c), hist (conns s' c))
                    = (v', tb', out (conns s c) ++ [r], hist (conns s c) ++ [q])).
       { rewrite E. destruct (is_close q); [destruct (close_conn_ep (k_served (conns s c) rest v' tb' r q)) as (-> & -> & -> & ->)|]; reflexivity. }
-      inversion E' as [[e1 e2 e3 e4]]. unfold ep_of. rewrite ep_run_snoc. fold (ep_of c (hist (conns s c))). rewrite <- IHR, Sr. reflexivity.
+      injection E' as e1 e2 e3 e4. rewrite e1, e2, e3, e4. unfold ep_of. rewrite ep_run_snoc.
+      fold (ep_of c (hist (conns s c))). rewrite <- IHR, Sr. reflexivity.
 Qed.
+
+(* ---- references never leak: a connection resolves only ids it was itself given, and with a service class registered those are its own ---- *)
+Lemma omem_In o l : omem o l = true <-> In o l.
+Proof.
+  unfold omem. rewrite existsb_exists. split.
+  - intros (x & H & E). unfold oeqb in E. apply andb_prop in E. destruct E as [E1 E2]. apply Nat.eqb_eq in E1, E2.
+    destruct o, x. cbn in *. subst. exact H.
+  - intros H. exists o. split; [exact H|]. unfold oeqb. now rewrite !Nat.eqb_refl.
+Qed.
+Lemma orm1_subset o l x : In x (orm1 o l) -> In x l.
+Proof.
+  induction l as [|y l IH]; cbn; [auto|]. destruct (oeqb o y); cbn; [auto|]. intros [H|H]; auto.
+Qed.
+Lemma serve_req_tables c v tb q v' tb' r (acc : list reply) :
+  serve_req K c v tb q = (v', tb', r) ->
+  (forall o, In o tb -> In (POid o) acc) -> forall o, In o tb' -> In (POid o) (acc ++ [r]).
+Proof.
+  intros E H o Ho. rewrite in_app_iff. unfold serve_req in E.
+  destruct q as [|o0|o0|o0|o0| |].
+  - inversion E; subst. destruct Ho as [<-|Ho]; [right; now left|left; auto].
+  - destruct (omem o0 tb && oeqb o0 (owner K c, 0)); inversion E; subst; left; auto.
+  - destruct (omem o0 tb && oeqb o0 (owner K c, 0)); inversion E; subst; [|left; auto].
+    destruct Ho as [<-|Ho]; [right; now left|left; auto].
+  - inversion E; subst. left; auto.
+  - destruct (omem o0 tb); inversion E; subst; left; [apply H; eapply orm1_subset, Ho|auto].
+  - inversion E; subst. left; auto.
+  - inversion E; subst. left; auto.
+Qed.
+Lemma serve_req_owner c v tb q v' tb' r :
+  serve_req K c v tb q = (v', tb', r) ->
+  (forall o, In o tb -> fst o = owner K c) -> (forall o, In o tb' -> fst o = owner K c) /\ (forall o, r = POid o -> fst o = owner K c).
+Proof.
+  intros E H. unfold serve_req in E.
+  destruct q as [|o0|o0|o0|o0| |]; [| | | | | |inversion E; subst; split; [assumption|intros o Eo; discriminate]].
+  - inversion E; subst. split; [intros o [<-|Ho]; [reflexivity|auto]|intros o Eo; inversion Eo; reflexivity].
+  - destruct (omem o0 tb && oeqb o0 (owner K c, 0)); inversion E; subst; (split; [assumption|intros o Eo; discriminate]).
+  - destruct (omem o0 tb && oeqb o0 (owner K c, 0)); inversion E; subst.
+    + split; [intros o [<-|Ho]; [reflexivity|auto]|intros o Eo; inversion Eo; reflexivity].
+    + split; [assumption|intros o Eo; discriminate].
+  - inversion E; subst. split; [assumption|]. intros o Eo. destruct (omem o0 tb'); discriminate.
+  - destruct (omem o0 tb); inversion E; subst; (split; [|intros o Eo; discriminate]); [|assumption].
+    intros o Ho. apply H. eapply orm1_subset, Ho.
+  - inversion E; subst. split; [assumption|intros o Eo; discriminate].
+Qed.
+
+Definition TabInv (s : st) : Prop :=
+  forall x, (forall o, In o (table (conns s x)) -> In (POid o) (out (conns s x)))
+            /\ (forall o, In o (table (conns s x)) -> fst o = owner K x)
+            /\ (forall o, In (POid o) (out (conns s x)) -> fst o = owner K x).
+Lemma tabinv_reach s : reach s -> TabInv s.
+Proof.
+  intros [l R]. induction R; intros x.
+  - cbn. repeat split; intros o [].
+  - specialize (IHR x). destruct IHR as (I1 & I2 & I3).
+    destruct (step_ep _ _ _ H x) as [E|(q & rest & Hn & E)]; unfold ep4 in E.
+    + injection E as e1 e2 e3 e4. rewrite e2, e3. auto.
+    + unfold served_conn in E.
+      destruct (serve_req K x _ (table (conns s x)) q) as [[v' tb'] r] eqn:Sr.
+      assert (E' : (own (conns s' x), table (conns s' x), out (conns s' x), hist (conns s' x))
+                   = ((if class_svc K then v' else own (conns s x)), tb', out (conns s x) ++ [r], hist (conns s x) ++ [q])).
+      { rewrite E. destruct (is_close q); [match goal with |- context [close_conn ?k] => destruct (close_conn_ep k) as (-> & -> & -> & ->) end|]; reflexivity. }
+      injection E' as e1 e2 e3 e4. rewrite e2, e3.
+      destruct (serve_req_owner _ _ _ _ _ _ _ Sr I2) as [O1 O2].
+      split; [eapply serve_req_tables; eassumption|]. split; [exact O1|].
+      intros o Ho. apply in_app_or in Ho. destruct Ho as [Ho|[Ho|[]]]; auto.
+Qed.
+
+Theorem only_given_ids_resolve s : reach s -> forall x o, omem o (table (conns s x)) = true -> In (POid o) (out (conns s x)).
+Proof. intros R x o H. apply omem_In in H. destruct (tabinv_reach s R x) as (I1 & _). auto. Qed.
+Theorem foreign_id_never_resolves s : class_svc K = true -> reach s ->
+  forall x y o, x <> y -> In (POid o) (out (conns s y)) -> omem o (table (conns s x)) = false.
+Proof.
+  intros Hc R x y o N Hy. destruct (omem o (table (conns s x))) eqn:M; [exfalso|reflexivity]. apply omem_In in M.
+  destruct (tabinv_reach s R x) as (_ & I2 & _). destruct (tabinv_reach s R y) as (_ & _ & I3).
+  specialize (I2 o M). specialize (I3 o Hy). unfold owner in *. rewrite Hc in *. congruence.
+Qed.
+
+(* ---- the accept loop ---- *)
+Lemma accept_closed c rest s : closed (accept K c rest s) = closed s.
+Proof.
+  unfold accept. destruct (kind K); cbn; try reflexivity.
+  - destruct (has_auth K); [destruct (abeh (conns s c))|]; cbn; reflexivity.
+  - destruct (fork_parent_keeps (fx K)); reflexivity.
+Qed.
+Lemma drop_closed c s : closed (drop c s) = closed s.
+Proof. rewrite drop_eq. destruct (mem c (fdmap s)); reflexivity. Qed.
+Lemma step_closed_same s e s' : kind K <> OneShot -> e <> EClose -> step e s = Some s' -> closed s' = closed s.
+Proof.
+  intros Nk Ne H. step_cases H; try congruence; rewrite ?accept_closed, ?drop_closed; simp_state; try reflexivity.
+  all: try (destruct (kind K); try congruence; simp_state; reflexivity).
+  all: try (destruct (pool_fail_discards (fx K)); reflexivity).
+Qed.
+Lemma closed_only_by_close l s : kind K <> OneShot -> reach_by l s -> closed s = true -> In EClose l.
+Proof.
+  intros Nk R. induction R; intros Hc; [discriminate|]. rewrite in_app_iff.
+  assert (D : e = EClose \/ e <> EClose) by (destruct e; try (right; discriminate); left; reflexivity).
+  destruct D as [->|Ne]; [right; now left|left]. apply IHR. rewrite <- (step_closed_same _ _ _ Nk Ne H). exact Hc.
+Qed.
+Theorem accept_stays_enabled l s : kind K <> OneShot -> reach_by l s -> ~ In EClose l -> busy s = None -> backlog s <> [] ->
+  exists s', step EAccept s = Some s'.
+Proof.
+  intros Nk R Nc Hb Hq. assert (I : Inv s) by (eapply inv_reach_by; eassumption). destruct I as (I1 & _ & _).
+  assert (Hc : closed s = false). { destruct (closed s) eqn:E; [|reflexivity]. exfalso. apply Nc. eapply closed_only_by_close; eassumption. }
+  pose proof (i_closed _ I1) as A. pose proof (i_lopen _ I1) as B. rewrite Hc in A.
+  assert (Ha : active s = true) by (destruct (active s); [reflexivity|discriminate]).
+  unfold Server.step. destruct (backlog s); [congruence|]. rewrite B, Ha, Hb. cbn. eauto.
+Qed.
+Lemma threaded_forking_never_busy s : kind K = Threaded \/ kind K = Forking -> reach s -> busy s = None.
+Proof.
+  intros Hk R. destruct (inv_reach s R) as (I1 & _ & _). destruct (busy s) eqn:E; [exfalso|reflexivity].
+  destruct (i_busy_kind _ I1) as [F|F]; [congruence|destruct Hk; congruence|destruct Hk; congruence].
+Qed.
+
+(* ---- a well-behaved client is served from its own connection's state, whatever the others are doing ---- *)
+Definition reply_of (s : st) (c : cid) (q : req) : reply :=
+  let k := conns s c in snd (serve_req K c (if class_svc K then own k else shared s) (table k) q).
+Lemma served_conn_out s c q rest : out (served_conn s c q rest) = out (conns s c) ++ [reply_of s c q].
+Proof.
+  unfold served_conn, reply_of. destruct (serve_req K c _ _ q) as [[v' tb'] r]. cbn [snd].
+  destruct (is_close q); [match goal with |- context [close_conn ?k] => destruct (close_conn_ep k) as (_ & _ & -> & _) end|]; reflexivity.
+Qed.
+Lemma served_conn_noclose s c q rest : is_close q = false ->
+  stg (served_conn s c q rest) = stg (conns s c) /\ shut (served_conn s c q rest) = shut (conns s c) /\ inb (served_conn s c q rest) = rest.
+Proof. intros Eq. unfold served_conn. destruct (serve_req K c _ _ q) as [[v' tb'] r]. rewrite Eq. repeat split. Qed.
+Theorem own_worker_serves s c q rest :
+  stg (conns s c) = Own -> authd (conns s c) = true -> shut (conns s c) = false -> next_input (inb (conns s c)) = NReq q rest ->
+  exists s', step (EWork c) s = Some s' /\ out (conns s' c) = out (conns s c) ++ [reply_of s c q]
+             /\ (is_close q = false -> stg (conns s' c) = Own /\ shut (conns s' c) = false /\ inb (conns s' c) = rest).
+Proof.
+  intros Hs Ha Hsh Hn. unfold Server.step, Server.work. rewrite Hs, Ha, Hsh, Hn. cbn [negb].
+  destruct (is_close q) eqn:Eq; eexists; (split; [reflexivity|]).
+  - assert (E := ep4_finish_own c (serve_on K s c q rest) c). unfold ep4 in E. injection E as _ _ e3 _.
+    rewrite e3, serve_on_same, served_conn_out. split; [reflexivity|discriminate].
+  - rewrite serve_on_same, served_conn_out. split; [reflexivity|]. intros _.
+    destruct (served_conn_noclose s c q rest Eq) as (-> & -> & ->). auto.
+Qed.
+
+(* the thread pool: wherever a connection with a complete request is, its next step is enabled -- except when it waits in the
+   queue and no worker is free (c16_pool_liveness_refuted shows that this can last for ever) *)
+Lemma out_drop c t x : out (conns (drop c t) x) = out (conns t x).
+Proof. assert (E := ep4_drop c t x). unfold ep4 in E. now injection E. Qed.
+Theorem pool_next_step_enabled s c q rest : kind K = Pool -> active s = true -> mem c (fdmap s) = true ->
+  next_input (inb (conns s c)) = NReq q rest ->
+  (mem c (pollset s) = true -> exists s', step (EPoll c false) s = Some s')
+  /\ (forall w r, nth_error (workers s) w = Some None -> queue s = c :: r ->
+        exists s1 s2, step (ETake w) s = Some s1 /\ step (EServe w) s1 = Some s2
+                      /\ out (conns s2 c) = out (conns s c) ++ [reply_of s c q])
+  /\ (forall w n, nth_error (workers s) w = Some (Some (c, S n)) ->
+        exists s', step (EServe w) s = Some s' /\ out (conns s' c) = out (conns s c) ++ [reply_of s c q]).
+Proof.
+  intros Kp Ha Mf Hn.
+  assert (Hne : negb (is_none (hd_error (inb (conns s c)))) = true).
+  { unfold Server.next_input in Hn. destruct (inb (conns s c)); [discriminate|reflexivity]. }
+  assert (Serve : forall t w n, nth_error (workers t) w = Some (Some (c, S n)) -> fdmap t = fdmap s -> conns t = conns s -> shared t = shared s ->
+            exists s', step (EServe w) t = Some s' /\ out (conns s' c) = out (conns s c) ++ [reply_of s c q]).
+  { intros t w n Hw e1 e2 e3. unfold Server.step, Server.serve_step. rewrite Kp, Hw, e1, Mf, e2, Hn. cbn [negb].
+    assert (Eo : out (conns (serve_on K t c q rest) c) = out (conns s c) ++ [reply_of s c q]).
+    { rewrite serve_on_same, served_conn_out. unfold reply_of. now rewrite e2, e3. }
+    destruct (is_close q); [|destruct n as [|m]]; eexists; (split; [reflexivity|]); rewrite ?out_drop;
+    cbn [conns set_worker enqueue with_pool]; exact Eo. }
+  split; [|split].
+  - intros Mp. unfold Server.step, Server.poll_step. rewrite Kp, Ha, Mp, Hne. cbn. eauto.
+  - intros w r Hw Hq.
+    assert (Mx : exists b, Nat.max 1 (batch K) = S b) by (destruct (batch K); cbn; eauto).
+    destruct Mx as [b Mx].
+    assert (T : step (ETake w) s = Some (with_pool s (fdmap s) (pollset s) r (set_nth w (Some (c, S b)) (workers s)))).
+    { unfold Server.step, Server.take_step. now rewrite Kp, Hw, Hq, Ha, Mx. }
+    destruct (Serve (with_pool s (fdmap s) (pollset s) r (set_nth w (Some (c, S b)) (workers s))) w b) as (s2 & E2 & O2); try reflexivity.
+    { cbn. clear - Hw. revert w Hw. induction (workers s) as [|y ws IH]; intros [|w] H; cbn in *; try discriminate; auto. }
+    eexists _, s2. split; [exact T|]. auto.
+  - intros w n Hw. apply (Serve s w n Hw); reflexivity.
+Qed.
+
+
+
+(* ---- no pool worker thread ever dies on a tree whose _serve_requests catches BaseException ---- *)
+Lemma nth_error_set_nth {A} (l : list A) w v w' : nth_error (set_nth w v l) w' = if Nat.eqb w' w then (match nth_error l w with Some _ => Some v | None => None end) else nth_error l w'.
+Proof.
+  revert w w'. induction l as [|y l IH]; intros [|w] [|w']; cbn; try reflexivity.
+  - destruct (Nat.eqb w' w); reflexivity.
+  - apply IH.
+Qed.
+Lemma workers_finish_own c t : workers (finish_own K c t) = workers t.
+Proof. rewrite finish_own_eq. destruct (kind K); try reflexivity. now rewrite sc_workers. Qed.
+Lemma workers_drop c t : workers (drop c t) = workers t.
+Proof. rewrite drop_eq. destruct (mem c (fdmap t)); reflexivity. Qed.
+Lemma workers_accept c rest t : workers (accept K c rest t) = workers t.
+Proof.
+  unfold accept. destruct (kind K); cbn; try reflexivity.
+  - destruct (has_auth K); [destruct (abeh (conns t c))|]; reflexivity.
+  - destruct (fork_parent_keeps (fx K)); reflexivity.
+Qed.
+Lemma no_dead_step s e s' : pool_catches_base (fx K) = true -> no_dead_worker s -> step e s = Some s' -> no_dead_worker s'.
+Proof.
+  intros Hf ND H.
+  step_cases H; try congruence; unfold no_dead_worker in *; intros w' c';
+  rewrite ?workers_finish_own, ?workers_drop, ?workers_accept, ?sc_workers; cbn [workers set_conn with_backlog with_pool with_busy pool_reject with_clients set_worker enqueue add_inactive];
+  rewrite ?so_workers; try apply ND.
+  all: cbn [workers set_conn with_conns].
+  all: match goal with |- nth_error (set_nth ?w _ _) _ <> _ =>
+         rewrite nth_error_set_nth; destruct (Nat.eqb w' w); try apply ND;
+         match goal with |- context [nth_error ?l w] => destruct (nth_error l w) end; try discriminate end.
+  all: try (destruct (batch K); cbn; discriminate).
+Qed.
+Theorem no_dead_worker_when_caught s : pool_catches_base (fx K) = true -> reach s -> no_dead_worker s.
+Proof.
+  intros Hf [l R]. induction R.
+  - intros w c. cbn. destruct (kind K); [destruct w; discriminate| |destruct w; discriminate|destruct w; discriminate].
+    revert w. induction (nworkers K) as [|n IH]; intros [|w]; cbn; try discriminate. apply IH.
+  - eapply no_dead_step; eassumption.
+Qed.
+
 End P.
+
+
+(* ---- thread pool: refutations (concrete witnesses) ---- *)
+Definition partial_frame : list byte := [x00; x00; x00; x0a; x00].          (* header promises 10 bytes; nothing follows *)
+Definition good_frame : list byte := [x00; x00; x00; x01; x00; x51; x0a].   (* a complete frame with a one-byte payload *)
+Definition w_decomp (b : list byte) : option (list byte) := None.
+Definition w_decode (b : list byte) : option req := if bytes_eqb b [x51] then Some QRoot else None.
+Definition w_pool (f : facts) (au : bool) : cfg := {| kind := Pool; fx := f; has_auth := au; class_svc := true; nworkers := 2; batch := 10 |}.
+Definition starve_history : list event :=
+  [EConnect 1 AuthOk; EConnect 2 AuthOk; EConnect 3 AuthOk; EAccept; EAccept; EAccept;
+   ESend 1 partial_frame; ESend 2 partial_frame; ESend 3 good_frame;
+   EPoll 1 false; ETake 0; EPoll 2 false; ETake 1; EPoll 3 false].
+
+(* two workers, two clients that sent a truncated frame and stay connected, one well-behaved client with a complete request:
+   both workers sit in Channel.recv, the good client's connection waits in the active queue, and NO thread of the server can
+   take any step *)
+Theorem pool_liveness_refuted f :
+  match exec w_decomp w_decode (w_pool f false) starve_history (init (w_pool f false)) with
+  | Some s => active s = true /\ Server.quiescent w_decomp w_decode (w_pool f false) s
+              /\ stg (conns s 3) = Pooled /\ gone (conns s 3) = false /\ queue s = [3]
+              /\ Server.next_input w_decomp w_decode (inb (conns s 3)) = NReq QRoot [] /\ out (conns s 3) = []
+              /\ workers s = [Some (1, 10); Some (2, 10)]
+              /\ Server.next_input w_decomp w_decode (inb (conns s 1)) = NBlock /\ gone (conns s 1) = false
+              /\ Server.next_input w_decomp w_decode (inb (conns s 2)) = NBlock /\ gone (conns s 2) = false
+  | None => False
+  end.
+Proof.
+  destruct f as [f1 f2 f3].
+  match goal with |- match ?x with _ => _ end => set (r := x) end.
+  vm_compute in r. subst r. cbv beta iota.
+  split; [reflexivity|]. split.
+  - intros e He. destruct e; try discriminate He.
+    + reflexivity.
+    + destruct c as [|[|[|[|c]]]]; reflexivity.
+    + destruct c as [|[|[|[|c]]]]; reflexivity.
+    + destruct w as [|[|[|w]]]; reflexivity.
+    + destruct w as [|[|[|w]]]; reflexivity.
+  - repeat split.
+Qed.
+
+(* the thread pool authenticates inside the accept loop: one client that connects and never finishes authentication keeps
+   every later client in the listener's queue; no thread of the server can take a step *)
+Theorem pool_accept_blocked_refuted f :
+  match exec w_decomp w_decode (w_pool f true) [EConnect 1 AuthStall; EAccept; EConnect 2 AuthOk] (init (w_pool f true)) with
+  | Some s => active s = true /\ closed s = false /\ Server.quiescent w_decomp w_decode (w_pool f true) s
+              /\ backlog s = [2] /\ busy s = Some 1 /\ gone (conns s 1) = false /\ stg (conns s 2) = Backlog
+  | None => False
+  end.
+Proof.
+  destruct f as [f1 f2 f3].
+  match goal with |- match ?x with _ => _ end => set (r := x) end.
+  vm_compute in r. subst r. cbv beta iota.
+  split; [reflexivity|]. split; [reflexivity|]. split.
+  - intros e He. destruct e; try discriminate He.
+    + reflexivity.
+    + destruct c as [|[|[|c]]]; reflexivity.
+    + destruct c as [|[|[|c]]]; reflexivity.
+    + destruct w as [|[|[|w]]]; reflexivity.
+    + destruct w as [|[|[|w]]]; reflexivity.
+  - repeat split.
+Qed.
+
+
+(* a client makes the server ask IT something (an unsolicited reply carrying a remote reference -> nested HANDLE_INSPECT) and
+   answers with an exception record for SystemExit: on a tree whose _serve_requests does not catch BaseException the pool's
+   worker thread ends.  nbThreads = 2, two such clients, one well-behaved client: both workers are dead, the good client's
+   request waits in the queue and no thread of the running server can take a step *)
+Definition kill_frame : list byte := [x00; x00; x00; x01; x00; x4b; x0a].
+Definition k_decode (b : list byte) : option req := if bytes_eqb b [x51] then Some QRoot else if bytes_eqb b [x4b] then Some QKill else None.
+Definition k_facts (caught : bool) : facts :=
+  {| pool_close_drops := true; pool_fail_discards := true; fork_parent_keeps := false; pool_catches_base := caught |}.
+Definition kill_history : list event :=
+  [EConnect 1 AuthOk; EConnect 2 AuthOk; EConnect 3 AuthOk; EAccept; EAccept; EAccept;
+   ESend 1 kill_frame; EPoll 1 false; ETake 0; EServe 0; ESend 2 kill_frame; EPoll 2 false; ETake 1; EServe 1;
+   ESend 3 good_frame; EPoll 3 false].
+Theorem pool_worker_death_refuted :
+  match exec w_decomp k_decode (w_pool (k_facts false) false) kill_history (init (w_pool (k_facts false) false)) with
+  | Some s => active s = true /\ Server.quiescent w_decomp k_decode (w_pool (k_facts false) false) s
+              /\ workers s = [Some (1, 0); Some (2, 0)] /\ queue s = [3] /\ gone (conns s 3) = false
+              /\ Server.next_input w_decomp k_decode (inb (conns s 3)) = NReq QRoot [] /\ out (conns s 3) = []
+  | None => False
+  end.
+Proof.
+  match goal with |- match ?x with _ => _ end => set (r := x) end.
+  vm_compute in r. subst r. cbv beta iota.
+  split; [reflexivity|]. split.
+  - intros e He. destruct e; try discriminate He.
+    + reflexivity.
+    + destruct c as [|[|[|[|c]]]]; reflexivity.
+    + destruct c as [|[|[|[|c]]]]; reflexivity.
+    + destruct w as [|[|[|w]]]; reflexivity.
+    + destruct w as [|[|[|w]]]; reflexivity.
+  - repeat split.
+Qed.
+(* the same history on a tree that catches it: the two connections are dropped, both workers live, the good client is served *)
+Theorem pool_worker_survives_when_caught :
+  match exec w_decomp k_decode (w_pool (k_facts true) false) (kill_history ++ [ETake 0; EServe 0]) (init (w_pool (k_facts true) false)) with
+  | Some s => out (conns s 3) = [POid (3, 0)] /\ stg (conns s 1) = Finished /\ hooks (conns s 1) = 1 /\ stg (conns s 2) = Finished
+              /\ fdmap s = [3] /\ workers s = [Some (3, 9); None]
+  | None => False
+  end.
+Proof. vm_compute. repeat split. Qed.
